@@ -20,7 +20,7 @@ def run(run):
     runner.load_contracts()
     # per-solve freshness of the class lists (F4), and values of derived objects are recomputed from the current leaf values (F6)
     components.ast_functions(run, ['PEPit/function.py::Function.set_class_constraints', 'PEPit/expression.py::Expression.eval',
-                                   'PEPit/point.py::Point.eval', 'PEPit/constraint.py::Constraint.eval', 'PEPit/psd_matrix.py::PSDMatrix.eval'], run.tier, rt_quick=12, rt_thorough=60)
+                                   'PEPit/point.py::Point.eval', 'PEPit/constraint.py::Constraint.eval', 'PEPit/psd_matrix.py::PSDMatrix.eval', 'PEPit/pep.py::PEP._eval_points_and_function_values'], run.tier, rt_quick=12, rt_thorough=60)
     run.trust('pyvc AST engine + z3 5.1 / cvc5 1.0.3')
     hc.solve_scenarios(run, 'C13', tasks(run), 'rt-solve-resolve',
                        'seeded DSL programs from 11 templates; solve, solve again, edit (add a metric / a constraint / an LMI / a new oracle call), '
